@@ -235,6 +235,8 @@ where
     entity_identifiers: &'a mut (*mut entity::Identifier, usize),
     components: &'a mut [(*mut u8, usize)],
     length: usize,
+    /// Set once the whole row has been stored in the buffers.
+    stored: &'a mut bool,
 }
 
 impl<'a, 'de, R> DeserializeRow<'a, 'de, R>
@@ -250,6 +252,7 @@ where
         entity_identifiers: &'a mut (*mut entity::Identifier, usize),
         components: &'a mut [(*mut u8, usize)],
         length: usize,
+        stored: &'a mut bool,
     ) -> Self {
         Self {
             lifetime: PhantomData,
@@ -259,6 +262,7 @@ where
             entity_identifiers,
             components,
             length,
+            stored,
         }
     }
 }
@@ -335,6 +339,7 @@ where
                     )
                 }?;
 
+                *self.0.stored = true;
                 Ok(())
             }
         }
@@ -416,6 +421,10 @@ where
                 let mut vec_length = 0;
 
                 for i in 0..self.0.length {
+                    // Whether the row was stored in the buffers before an error was reported. The
+                    // error can be reported after the row itself was read (for example when the
+                    // row is followed by unexpected data).
+                    let mut row_stored = false;
                     let result = seq.next_element_seed(
                         // SAFETY: `entity_identifiers` and `components` both contain the raw parts
                         // for valid `Vec`s of length `vec_length`.
@@ -425,10 +434,12 @@ where
                                 &mut entity_identifiers,
                                 &mut components,
                                 vec_length,
+                                &mut row_stored,
                             )
                         },
                     );
                     if let Err(error) = result {
+                        let vec_length = vec_length + usize::from(row_stored);
                         drop(
                             // SAFETY: `entity_identifiers` contains the raw parts for a valid
                             // `Vec<entity::Identifier>` of size `vec_length`.
@@ -529,7 +540,9 @@ impl<'de, C> DeserializeSeed<'de> for DeserializeColumn<'de, C>
 where
     C: Component + Deserialize<'de>,
 {
-    type Value = (*mut C, usize);
+    // The column is returned as an owned `Vec`, so that it is dropped if an error is reported after
+    // the column itself was read.
+    type Value = Vec<C>;
 
     fn deserialize<D>(self, deserializer: D) -> Result<Self::Value, D::Error>
     where
@@ -543,7 +556,7 @@ where
         where
             C: Component + Deserialize<'de>,
         {
-            type Value = (*mut C, usize);
+            type Value = Vec<C>;
 
             fn expecting(&self, formatter: &mut fmt::Formatter) -> fmt::Result {
                 write!(
@@ -567,9 +580,7 @@ where
                     );
                 }
 
-                let mut v = ManuallyDrop::new(v);
-
-                Ok((v.as_mut_ptr(), v.capacity()))
+                Ok(v)
             }
         }
 
@@ -623,9 +634,14 @@ where
             where
                 A: SeqAccess<'de>,
             {
-                let entity_identifiers = seq
-                    .next_element_seed(DeserializeColumn::new(self.0.length))?
-                    .ok_or_else(|| de::Error::invalid_length(0, &self))?;
+                let mut entity_identifiers = ManuallyDrop::new(
+                    seq.next_element_seed(DeserializeColumn::new(self.0.length))?
+                        .ok_or_else(|| de::Error::invalid_length(0, &self))?,
+                );
+                let entity_identifiers = (
+                    entity_identifiers.as_mut_ptr(),
+                    entity_identifiers.capacity(),
+                );
 
                 let mut components = Vec::with_capacity(self.0.identifier.count());
                 let result =
